@@ -24,6 +24,25 @@ def rand_series(rng, n, ndim=1, lo=-3, hi=3):
     return [[rng.randint(lo, hi) for _ in range(ndim)] for _ in range(n)]
 
 
+def shifted_peak_collection(rng, ndim=1, nshort=2, nlong=None):
+    """A collection whose FIRST pairs are short and whose LATER pairs are long and only align well far from the
+    diagonal (a peak early in one series, late in the other).  Any per-call state that the first pair leaves behind
+    in shared settings/buffers (a resolved window, a bound, a row length) changes a later pair's distance."""
+    nlong = nlong or rng.randint(2, 3)
+    ser = []
+    for _ in range(nshort):
+        n = rng.randint(1, 2)
+        ser.append([rng.randint(-1, 1) for _ in range(n)])
+    for _ in range(nlong):
+        n = rng.randint(6, 10)
+        v = [0] * n
+        v[rng.randint(0, n - 1)] = rng.choice([3, 5])
+        ser.append(v)
+    if ndim > 1:
+        ser = [[[x] + [rng.randint(0, 1) * 0 + x * (d + 1) for d in range(1, ndim)] for x in s] for s in ser]
+    return ser
+
+
 def split_psi(psi):
     if psi is None:
         return 0, 0, 0, 0
